@@ -23,6 +23,8 @@ type Clause struct {
 	Exprs []ast.Expr
 	Loop  int
 	Line  string
+	After string // cut/assert position: variable name
+	AfterN int
 }
 
 type Contract struct {
@@ -52,6 +54,7 @@ type Contract struct {
 	Results  []string // result names override
 	Fresh    []*Clause
 	Hints    []*Clause
+	NoAlias  [][]string      // groups of parameters that callers must not alias with each other
 	Weak     map[string]bool // parameters whose type invariants are neither assumed nor required
 }
 
@@ -461,6 +464,17 @@ func (db *SpecDB) loadFile(path string, pkgPath string, marker bool) error {
 					return err
 				}
 				c.Name = strings.TrimSpace(name)
+				// optional position: label@var#k fires once `var` has been assigned k times
+				if lbl, pos, ok := strings.Cut(c.Name, "@"); ok {
+					c.Name = lbl
+					v, k, _ := strings.Cut(pos, "#")
+					c.After = v
+					c.AfterN = 1
+					if n, err := strconv.Atoi(k); err == nil {
+						c.AfterN = n
+					}
+				}
+				c.Kind = kw
 				cur.Asserts = append(cur.Asserts, c)
 			case "using":
 				c, err := mkExprClause("using", rest)
@@ -472,6 +486,8 @@ func (db *SpecDB) loadFile(path string, pkgPath string, marker bool) error {
 				// split <expr> in lo..hi [else]
 				c := &Clause{Kind: "split", Text: rest, Line: where}
 				cur.Splits = append(cur.Splits, c)
+			case "noalias":
+				cur.NoAlias = append(cur.NoAlias, splitList(rest))
 			case "weak":
 				if cur.Weak == nil {
 					cur.Weak = map[string]bool{}
